@@ -102,6 +102,19 @@ def run_shard(ctx):
     while not ctx.out_of_time():
         rng = ctx.rng(i)
         i += 1
+        if i % 9 == 4:
+            # frames whose length sits on a varint boundary (1->2 and 2->3 byte length prefixes)
+            for _k in range(6):
+                cfg, stmts, target = workloads.boundary_frame_case(rng)
+                w, res = check_stream(cfg, stmts, [])
+                ctx.observe("boundary-length-frames")
+                if w is not None and w["clause"] != "serializer-raised":
+                    w.update({"cfg": cfg, "stmts": T.to_json(stmts), "ns": []})
+                    ctx.violation(w)
+                elif res is not None:
+                    ctx.observe("streams-decoded")
+                ctx.case(("boundary", sorted(cfg.items()), target, len(stmts)), False)
+            continue
         if i % 6 == 0:
             cfg, groups, nss = workloads.multi_sink_case(rng, with_ns=rng.random() < .7)
             w, res = check_groups(cfg, groups, nss)
